@@ -161,10 +161,66 @@ fn deliver_checked(w: &mut World, led: &mut Ledger, to: usize, m: &Sent, ctx: &'
     }
 }
 
+/// A message that is held back in its own epoch and delivered in later ones.
+struct Held {
+    id: usize,
+    epoch: u64,
+    m: Sent,
+}
+
+/// Late deliveries of held-back messages of earlier epochs: newest epoch first, then older ones,
+/// then everything again. Whether a late message is still readable is C19's business (retention);
+/// here: what a receiver accepted once it never accepts again, and what it accepts is the
+/// genuine content.
+fn late_round(w: &mut World, held: &[Held], accepted: &mut BTreeSet<(usize, usize)>) {
+    let cur = w.epoch();
+    for to in w.active() {
+        if w.rng.chance(1, 2) {
+            let g = w.gm(to);
+            let _ = guarded(|| g.write_to_storage());
+        }
+        let mut mine: Vec<&Held> = held.iter().filter(|h| h.m.sender != to && h.epoch < cur && w.parties[to].joined_epoch <= h.epoch).collect();
+        mine.sort_by(|a, b| b.epoch.cmp(&a.epoch).then(a.id.cmp(&b.id)));
+        let again: Vec<&Held> = mine.iter().rev().copied().collect();
+        for h in mine.into_iter().chain(again) {
+            let before = accepted.contains(&(to, h.id));
+            w.out.cov.eval(Some(fnv(format!("late|{}|{before}", (cur - h.epoch).min(4)).as_bytes())));
+            match w.deliver(to, &h.m.msg) {
+                Ok(ReceivedMessage::ApplicationMessage(d)) => {
+                    if before {
+                        w.violate(
+                            "C05|late_message_accepted_twice",
+                            format!("member {to} at epoch {cur} accepted the application message {} of sender {} (epoch {}, generation {}) a second time", h.id, h.m.sender, h.epoch, h.m.generation),
+                        );
+                    } else if d.data() != h.m.plaintext.as_slice() || d.sender_index != h.m.leaf {
+                        w.violate("C05|decrypted_to_wrong_content", format!("member {to}, late message {} of epoch {}", h.id, h.epoch));
+                    }
+                    accepted.insert((to, h.id));
+                    w.out.cov.bump(if before { "late_replay_accepted" } else { "late_first_delivery_accepted" });
+                }
+                Ok(_) => {}
+                Err(e) => {
+                    if e.starts_with("PANIC") {
+                        w.violate(format!("C05|panic|late_delivery|{}", e.chars().take(80).collect::<String>()), e);
+                    } else {
+                        w.out.cov.bump(if before { "late_replay_refused" } else { "late_first_delivery_refused" });
+                    }
+                }
+            }
+        }
+    }
+}
+
 fn history(w: &mut World, epochs: u64, thorough: bool) -> Result<(), String> {
     let n0 = w.rng.range(3, w.cfg.max_members.min(5));
     w.bootstrap(n0, &mut NoHooks)?;
+    let mut held: Vec<Held> = vec![];
+    let mut held_seq = 0usize;
+    let mut accepted_late: BTreeSet<(usize, usize)> = BTreeSet::new();
     for ep in 0..epochs {
+        if !held.is_empty() {
+            late_round(w, &held, &mut accepted_late);
+        }
         let act = w.active();
         if act.len() < 2 {
             break;
@@ -200,6 +256,20 @@ fn history(w: &mut World, epochs: u64, thorough: bool) -> Result<(), String> {
                 if let Some(x) = send_app(w, &mut gens, s)? {
                     sent.push(x);
                 }
+            }
+        }
+        // held back: sent now, delivered only in later epochs (and then more than once)
+        {
+            let epoch_now = w.epoch();
+            for &s in senders.iter().take(2) {
+                if let Some(x) = send_app(w, &mut gens, s)? {
+                    held_seq += 1;
+                    held.push(Held { id: held_seq, epoch: epoch_now, m: x });
+                }
+            }
+            let n = held.len();
+            if n > 12 {
+                held.drain(..n - 12);
             }
         }
         // (2) a sender restored from a state saved before it sent: the same generations again
@@ -240,7 +310,7 @@ fn history(w: &mut World, epochs: u64, thorough: bool) -> Result<(), String> {
         if ep == 0 || (thorough && w.rng.chance(1, 2)) {
             let s = *act.last().unwrap();
             if !senders.contains(&s) {
-                let total = w.rng.range(1022, 1027) as u64;
+                let total = w.rng.range(1022, 1031) as u64;
                 for _ in 0..total {
                     if let Some(x) = send_app(w, &mut gens, s)? {
                         gap_msgs.push(x);
@@ -296,8 +366,19 @@ fn history(w: &mut World, epochs: u64, thorough: bool) -> Result<(), String> {
             // then a replay of the last one
             if let (Some(last), Some(first)) = (gap_msgs.last(), gap_msgs.first()) {
                 if last.sender != to {
-                    deliver_checked(w, &mut led, to, last, "gap_last");
+                    if w.rng.chance(1, 2) {
+                        deliver_checked(w, &mut led, to, last, "gap_last");
+                    } else {
+                        // the largest jump the window allows, then everything after it in order:
+                        // the skipped generations fall further and further behind
+                        let j = (WINDOW as usize).min(gap_msgs.len() - 1);
+                        deliver_checked(w, &mut led, to, &gap_msgs[j], "gap_jump_to_window_edge");
+                        for m in &gap_msgs[j + 1..] {
+                            deliver_checked(w, &mut led, to, m, "gap_after_jump_in_order");
+                        }
+                    }
                     deliver_checked(w, &mut led, to, first, "gap_first_after_jump");
+                    deliver_checked(w, &mut led, to, &gap_msgs[1], "gap_second_after_jump");
                     if gap_msgs.len() > 3 {
                         deliver_checked(w, &mut led, to, &gap_msgs[gap_msgs.len() / 2], "gap_middle_after_jump");
                     }
